@@ -235,6 +235,16 @@ def decode_cases(ck: Check):
             elif mode == 2:
                 x.reverse()
             yield "long-season", n, r, days, x, sp.dtype, dirt_for(days, n, rng.randint(0, 2)), (n % 2 == 0 and n <= 16 and r <= 100)
+    # many teams: team indices beyond the width of a machine word / of the small integer types (64, 65, 127, 128, ...);
+    # one round, shuffled blueprint (found missing by seeded change C15-busy-bitset-64)
+    for n in ((63, 64, 65, 66) if ck.quick else (63, 64, 65, 66, 70, 96, 127, 128, 129, 130)):
+        sp, bp = impl_blueprint(n, 1)
+        days = n - 1
+        for mode in range(2):
+            x = list(bp)
+            if mode == 1:
+                rng.shuffle(x)
+            yield "many-teams", n, 1, days, x, sp.dtype, dirt_for(days, n, 0), False
     # (3) structured random: points of the real search space, real encoding objects for even n
     n_rand = 600 if ck.quick else 5000
     for k in range(n_rand):
